@@ -29,7 +29,23 @@ PROPS = {
                 scope='"every explanation\'s final score equals its hit\'s score": the explain fill loop of search() and the per-hit rescore update leave every hit with an explanation whose final_score is the hit score, without changing scores or keys',
                 outside='the first sentence of the property (explain/profile flags change nothing) is relational over two executions of search() and is outside; materialize_hit copying score/explanation is read, not verified',
                 level_text='Partial: proves explanation/score agreement on the two code sites that write explanations; the flag-independence of results is outside this technique.'),
+    'C10': dict(units=[], kani=['K1', 'K7', 'K9'], level='other',
+                scope='the comparator (missing last under both orders, directed total_cmp/Ord per part, lexicographic over 1-3 parts, ties by segment then document, Equal only for the same document), value selection min/max for multi-valued fields (lists <= 3, bounded), flat score combinators for finite inputs',
+                outside='bm25 (ln), the score tree ScoreExpr::evaluate, per-segment statistics, that search() sorts with this comparator, keyword (String) parts',
+                level_text='Partial: Kani proves the order and combinator contracts over all scalar inputs (loop-free harnesses); pick_numeric and key lengths are bounded as stated; BM25 itself is outside.',
+                technique='contract-based verification with Kani: harnesses and in-place kani::ensures on the real comparators, full-domain symbolic scalars, unwinding assertions on'),
+    'C26': dict(units=[], kani=['K5'], level='other',
+                scope='the copy tail of searchlite_search and its null/zero-capacity guard: returns min(len, buf_cap-1), NUL at that index, prefix copied, nothing at or beyond buf_cap written - for every response length <= 32 and every capacity <= 34 (all byte values)',
+                outside='response lengths beyond the bound (the code is loop-free: the bound only limits the symbolic array size), null guards of the other entry points, everything before the copy',
+                level_text='Bounded in the response length N (32): a loop-free Kani harness over all byte values, capacities and lengths up to N on the mechanically extracted copy tail.',
+                technique='contract-based verification with Kani: mechanically extracted slice of the unsafe copy compiled inside the real crate, canary-guarded buffer'),
+    'C19': dict(units=['U13'], kani=['K7'], level='other',
+                scope='the score update of a rescored hit: new score == combine_rescore_scores(mode, original, rescore score) (Verus, rescore_update slice) and combine_rescore_scores == the documented sum/multiply/max/min for finite inputs (Kani)',
+                outside='window membership, min_score dropping, that hits after the window keep score and order (all in rescore_hits around the slice)',
+                level_text='Partial and thin: decides only that window hits get the documented combined score.'),
 }
+
+KANI_TRUSTED = ['Kani 0.68 MIR-to-goto translation and CBMC 6.11 (bit-precise floats for + - * / total_cmp max min is_finite)']
 
 COMMON_TRUSTED = [
     'Verus 0.2026.09.13 (vir/air), bundled Z3, vstd specifications of Vec/slice/array/HashMap/BTreeMap/Option/Result/integers',
